@@ -40,6 +40,7 @@ type Router interface {
 	RouteRequest(context.Context, *http.Request, *url.URL, *Rule) (*RequestResult, error)
 	GetRoutingFlavors(*http.Request) RoutingFlavors
 	SetRules(*Rules)
+	Pinned() Router
 }
 
 type RoutingFlavors struct {
@@ -361,6 +362,14 @@ func (r *router) createRuleMatchResults(req *http.Request, overrideRules *Rules)
 	}
 
 	return ruleMatchResults, err
+}
+
+// Pinned returns a router that keeps the rules in force now: one request is matched, given its
+// flavors and routed (redirect hops included) under a single version of the rules even if
+// SetRules swaps them meanwhile.
+func (r *router) Pinned() Router {
+	pinned := *r
+	return &pinned
 }
 
 func (r *router) SetRules(rules *Rules) {
